@@ -250,6 +250,31 @@ def search(ctx: Ctx):
     signal.signal(signal.SIGALRM, _alarm)
     c = Ctx(ctx.pid, "quick", ctx.seed + 13)
     fixed = [(gens.make_md(cf), cf) for cf in gens.FIXED_CFGS]
+    # the inputs on which model and implementation disagreed come first: where the model returns and the code raises, that input
+    # (with and without its trailing newline, bare and wrapped in the containers) is the replay
+    seen = []
+    for mm in ctx.mismatches:
+        src = mm.get("input")
+        if isinstance(src, str) and src not in seen:
+            seen.append(src)
+    for src0 in seen[:40]:
+        variants = [src0, src0.rstrip("\n"), src0 + "\n"]
+        variants += ["> " + v.replace("\n", "\n> ") for v in variants[:2]] + ["- " + v.replace("\n", "\n  ") for v in variants[:2]]
+        for src in variants:
+            for md, cfg in fixed:
+                for api in ("render", "parse"):
+                    err = call(md, api, src, 2.0)
+                    if err:
+                        return Finding("crash" if err != "hang" else "hang", f"{api}: {err}", {"input": src, "cfg": cfg, "api": api, "error": err})
+    # unclosed / indented verbatim blocks at the end of a container whose last line is only the container's marker, no final newline
+    for opener in ("```", "~~~", " ```", "  ~~~", "   ```", "- ```", "1. ~~~", "    code", "<pre>", "<!--", "[r]:", "a\n==="):
+        for pre, last in (("> ", ">"), ("> ", "> "), (">  ", ">"), ("> - ", ">"), ("> > ", "> >"), ("- ", ""), ("- ", " "), ("> ", ">\t"), (">", ">")):
+            for tail in ("", "\n"):
+                src = pre + opener.replace("\n", "\n" + pre) + "\n" + last + tail
+                for md, cfg in fixed:
+                    err = call(md, "render", src, 2.0)
+                    if err:
+                        return Finding("crash" if err != "hang" else "hang", f"render: {err}", {"input": src, "cfg": cfg, "api": "render", "error": err})
     for k in (1, 2):
         for src in gens.line_docs(k, gens.LINE_SHAPES_EXT if k == 1 else gens.LINE_SHAPES):
             for md, cfg in fixed:
